@@ -1161,12 +1161,12 @@ class MorphFactory:
         Returns:
             List of dependent generators.
         """
-        self.legs = legs.copy()
         self.is_check = True
         dependents = []
 
         for g in generators:
-            self.legs = legs.copy()
+            # the pipeline rewrites leg lists in place: work on a copy of each leg
+            self.legs = [leg.copy() for leg in legs]
             try:
                 self._pipeline(g)
             except CheckAppendedException:
